@@ -90,13 +90,22 @@ func NewValue(typ *meta.Type, v interface{}) (val.Value, error) {
 func toIdentRef(bases []*meta.Identity, v interface{}) (val.IdentRef, error) {
 	var empty val.IdentRef
 	x := fmt.Sprintf("%v", v)
+	module := ""
 	if colon := strings.IndexRune(x, ':'); colon > 0 {
+		module = x[:colon]
 		x = x[colon+1:]
 	}
 
 	ref := meta.FindIdentity(bases, x)
 	if ref == nil {
 		return empty, fmt.Errorf("could not find identity ref for %T:'%s'", v, x)
+	}
+	if module != "" {
+		// module name as in JSON or its prefix as in XML
+		owner := meta.RootModule(ref)
+		if module != owner.Ident() && module != owner.Prefix() {
+			return empty, fmt.Errorf("identity '%s' is not defined in '%s'", x, module)
+		}
 	}
 	return val.IdentRef{Label: ref.Ident()}, nil
 }
